@@ -115,8 +115,12 @@ func (b *BoundedIterator) Seek(target []byte) bool {
 		target = b.start
 	}
 
-	// If target is at or after end bound, the seek will fail
+	// If target is at or after end bound, the seek will fail. The wrapped
+	// iterator is moved out of the range as well: left where it was, a
+	// position reached earlier would still count as valid although its key
+	// is smaller than the target.
 	if b.end != nil && bytes.Compare(target, b.end) >= 0 {
+		b.Iterator.Seek(b.end)
 		return false
 	}
 
